@@ -143,6 +143,12 @@ def run(rep):
     for ch in TEXT_CHANNELS:
         for cls, text in TEXT_TOKENS.items():
             jobs.append({"wb": text_form(ch, text), "fmt": "dict", "parts": ("c01",), "tag": {"text_channel": ch, "token": cls}})
+    # custom primary-instance attributes (settings attribute::*) whose names collide with the built-in ones: the root keeps the form id
+    for cols in (["attribute::id"], ["attribute::version"], ["attribute::id", "version"], ["attribute::id", "attribute::xyz"], ["attribute::ID"]):
+        hdr = ["form_id", "form_title"] + cols
+        wbx = {"sheets": [{"name": "survey", "header": ["type", "name", "label"], "rows": [["text", "q1", "Q1"]]},
+                          {"name": "settings", "header": hdr, "rows": [["the_form_id", "T"] + [f"custom_{i}" for i in range(len(cols))]]}]}
+        jobs.append({"wb": wbx, "fmt": "dict", "parts": ("c01",), "tag": {"settings_attribute_collision": cols}})
     outs = conv.map_cases(_xml.run_doc, jobs, chunksize=8)
     nf = 2500 if rep.tier == "quick" else 40000
     outs += [o for o in conv.map_cases(_fuzz_doc, [{"seed": rep.seed, "idx": i} for i in range(nf)], chunksize=32)]
